@@ -80,7 +80,7 @@ func writeEvidence(p Prop, tier string, seed uint64, seeds []uint64, st *Stats, 
 		"violations":  nviol,
 	}
 	b, _ := json.MarshalIndent(ev, "", " ")
-	path := filepath.Join(verifRoot(), "evidence", p.ID()+".json")
+	path := filepath.Join(outRoot(), "evidence", p.ID()+".json")
 	if err := os.WriteFile(path, b, 0o644); err != nil {
 		fatalInfra("write evidence: %v", err)
 	}
